@@ -72,4 +72,23 @@ def ProxySubs.onOk (p : ProxySubs) (id : Nat) : ProxySubs :=
 def ProxySubs.cancel (p : ProxySubs) (id : Nat) : ProxySubs × Option Nat :=
   if p.rules.contains id then ({ rules := p.rules.filter (· ≠ id) }, some id) else (p, none)
 
+/-! ### several proxies
+
+`_signalRules` belongs to the `RemoteDBusObject` INSTANCE: every proxy - on the same connection or on another
+one, where rule ids are numbered from 0 again - has its own set.  A table of proxies, numbered in order of
+creation; a proxy that has not subscribed yet has the empty set. -/
+
+def ProxyTable.get (t : List ProxySubs) (p : Nat) : ProxySubs := t.getD p {}
+
+def ProxyTable.put (t : List ProxySubs) (p : Nat) (v : ProxySubs) : List ProxySubs :=
+  (t ++ List.replicate (p + 1 - t.length) ({} : ProxySubs)).set p v
+
+/-- `on_ok(rule_id)` of proxy `p`. -/
+def ProxyTable.onOk (t : List ProxySubs) (p id : Nat) : List ProxySubs :=
+  ProxyTable.put t p ((ProxyTable.get t p).onOk id)
+
+/-- `cancelSignalNotification(rule_id)` on proxy `p`. -/
+def ProxyTable.cancel (t : List ProxySubs) (p id : Nat) : List ProxySubs × Option Nat :=
+  (ProxyTable.put t p ((ProxyTable.get t p).cancel id).1, ((ProxyTable.get t p).cancel id).2)
+
 end Txdbus.Route
